@@ -453,7 +453,7 @@ func c17Metadata(c *Ctx, RUN *ssa.Function) {
 	for _, f := range []string{"Capabilities", "SupportedContractVersions"} {
 		needs = append(needs, Need{Name: "non-empty-" + strings.ToLower(f), What: "metadata." + f + " is not empty", Alt: [][]string{{"NE(len(" + md + "." + f + "),const:0)"}, {"GT(len(" + md + "." + f + "),const:0)"}}})
 	}
-	needs = append(needs, Need{Name: "contract-version", What: "the supported contract versions contain the host's contract version", Subs: []string{"T(call:ngo/internal/slices.Contains(" + md + ".SupportedContractVersions," + fmt.Sprintf("const:%q))", cv)}})
+	needs = append(needs, Need{Name: "contract-version", What: "the supported contract versions contain the host's contract version", Subs: []string{"T(call:slices.Contains(" + md + ".SupportedContractVersions," + fmt.Sprintf("const:%q))", cv)}})
 	c.requireOnExits("metadata", GM, s.Exits, needs)
 	// the request carries the plugin's own name/path
 }
